@@ -1,6 +1,9 @@
-\* JsonWriter, quick tier: every unit sequence of length <= 3 over the 35 units
-\* (23 byte classes + 7 valid and 5 invalid multi-byte sequences) and every
-\* scalar case.  Repaired behaviour (no deviation).
+\* JsonWriter with the behaviour of the pinned tree as named deviations:
+\* CopyInvalidVerbatim (string.go copies offending bytes verbatim) and UintIDWraps
+\* (id.go converts negative ints with uint(v)).  TLC must REFUTE ThmAccepted /
+\* ThmValidUtf8 (first counterexample: the input <<"ovl2">>, output "C0 80" raw) and
+\* ThmNoSilentWrap (UintID, int, minI64 -> ok); the driver runs this cfg with
+\* -continue and treats "not refuted" as a vacuous specification (exit 2).
 SPECIFICATION Spec
 CONSTANTS
   MaxLen = 2
@@ -8,6 +11,6 @@ CONSTANTS
   CopyInvalidVerbatim = TRUE
   UintIDWraps = TRUE
   EmitLines = FALSE
-INVARIANTS TypeOK ThmAccepted ThmValidUtf8 ThmDecodes ThmRuneAtIsRef ThmNoSilentWrap ThmRoundTripCloses ThmNonFinite ThmRanges
+INVARIANTS TypeOK ThmAccepted ThmValidUtf8 ThmDecodes ThmRuneAtIsRef ThmNoSilentWrap ThmRoundTripCloses ThmNonFinite
 ACTION_CONSTRAINT Emit
 CHECK_DEADLOCK FALSE
